@@ -129,7 +129,7 @@ pub struct TableSpec {
 }
 
 pub fn gen_table(rng: &mut Rng, idx: u64) -> TableSpec {
-    let family = KeyFamily::ALL[(idx % 5) as usize];
+    let family = KeyFamily::ALL[(idx % 6) as usize];
     let block = *rng.pick(&[1usize, 16, 16, 64, 64, 256, 256, 1024, 4096, 1 << 20]);
     let nkeys = match rng.below(10) {
         0 => rng.range(1, 3),
@@ -315,6 +315,7 @@ pub fn check_table(out: &mut CaseOut, rng: &mut Rng, spec: &TableSpec, thorough:
             targets.push((e.0.clone(), e.1 - 1));
         }
         targets.push((e.0.clone(), u64::MAX >> 8));
+        targets.push((e.0.clone(), u64::MAX)); // raindb's own upper end of the sequence space: "the newest entry, whatever it is"
         targets.push((e.0.clone(), 0));
         // neighbours of the key
         let mut after = e.0.clone();
